@@ -23,7 +23,8 @@
 (***************************************************************************)
 EXTENDS Integers, Sequences, FiniteSets, TLC, Json
 
-CONSTANT Stratum    \* "all": every data history; "never": only scenarios whose metric never had a sample (P2 stratum)
+CONSTANT Stratum    \* "all": every data history; "never": only scenarios whose metric never had a sample (P2 stratum);
+                    \* "now": only scenarios whose selector returns series now (P1 stratum)
 
 Cells == -3..15
 InWin == -1..15              \* cells that reach into the lookback window
@@ -42,7 +43,9 @@ Hist(h) == CASE h = "never"       -> {}
              [] h = "new_recent"  -> 13..15
              [] h = "new_long"    -> 4..15
 UpNames == {"always", "gap", "none"}
-UpHist(u) == CASE u = "always" -> Cells [] u = "gap" -> Cells \ {4, 5} [] u = "none" -> {}
+\* "gap": the uptime metric exists exactly where the history flap_gone has samples, so that a series with that history
+\* has NO gap that Prometheus' own uptime does not explain (FindGaps only counts points covered by the uptime ranges)
+UpHist(u) == CASE u = "always" -> Cells [] u = "gap" -> (-3..3) \cup (6..9) [] u = "none" -> {}
 
 Shapes == {"bare", "eq", "nm", "re", "neq", "nolabel", "alerts"}    \* nm: {__name__="m", l="v1"}
 RuleSets == {"none", "rr_same", "rr_other", "alert_same", "alert_other", "alert_named"}
@@ -108,12 +111,17 @@ Sev(sc)       == IF Ignored(sc) THEN "Warning" ELSE "Bug"      \* textAndSeverit
 MinAge(sc)    == CASE sc.exempt = "minage1h" -> 60 [] sc.exempt = "minage3h" -> 180 [] OTHER -> 120
 HasRR(sc)     == sc.rules = "rr_same"
 HasAlert(sc)  == sc.rules = "alert_same"
-Orphans(sc)   == IF sc.exempt = "disable_other" THEN {[class |-> "orphan-comment", sev |-> "Warning"]} ELSE {}
+Orphans(sc)   == IF sc.exempt = "disable_other"
+                 THEN {[class |-> "orphan-comment", sev |-> "Warning", at |-> "rule", about |-> "-", ago |-> -1]} ELSE {}
 
 -----------------------------------------------------------------------------
 (* Impl: the decision tree. Result: probes sent (in order) and problems.   *)
 
-P(class, sev) == [class |-> class, sev |-> sev]
+\* a problem: class of the message, severity, what the diagnostic underlines (the whole selector, one matcher, the
+\* whole rule expression, or "other" = the other selector of a two-selector rule), the label / matcher the message
+\* names ("-" = none) and "last present X ago" in half hours (-1 = not stated)
+PX(class, sev, at, about, ago) == [class |-> class, sev |-> sev, at |-> at, about |-> about, ago |-> ago]
+P(class, sev) == PX(class, sev, "selector", "-", -1)
 Out(probes, problems, sc) == [probes |-> probes, problems |-> problems \cup Orphans(sc)]
 
 PosLabel(sh) == CASE sh \in {"eq", "nm", "re"} -> "l" [] sh = "nolabel" -> "k" [] OTHER -> "-"   \* labelNames / positive matcher
@@ -123,6 +131,10 @@ WithLabel(sc) == IF PosLabel(sc.shape) = "l" THEN MetricCells(sc) ELSE {}
 MatchCells(sc) == CASE sc.shape \in {"eq", "nm"} -> Hist(sc.ha) [] sc.shape = "re" -> MetricCells(sc) [] OTHER -> {}
 \* ... rendered with the metric name in front (labelSelector: Name = metricName, the one matcher)
 MatchText(sh) == CASE sh \in {"eq", "nm"} -> "M{l='v1'}" [] sh = "re" -> "M{l=~'v.*'}" [] sh = "nolabel" -> "M{k='v'}" [] OTHER -> "-"
+
+MatcherText(sh) == CASE sh \in {"eq", "nm"} -> "l='v1'" [] sh = "re" -> "l=~'v.*'" [] sh = "nolabel" -> "k='v'" [] OTHER -> "-"
+\* sinceDesc(newest(ranges)) in half hours: the range ends 5..10 minutes after the last sample of the run
+AgoOf(R) == (Lookback - Newest(R)) \div 30
 
 I(q) == "i:" \o q
 R(q) == "r:" \o q
@@ -154,19 +166,19 @@ Target(sc, prior) ==
   ELSE IF NowCell \in SelCells(sc) THEN Out(p1, {}, sc)                         \* 1. the selector returns series
   ELSE IF trs = {}                                                              \* 2. never there
        THEN IF HasRR(sc) THEN Out(p2, {P("rr", "Information")}, sc) ELSE Out(p2, {P("never", Sev(sc))}, sc)
-  ELSE IF labelNever THEN Out(p3, {P("label-never", "Bug")}, sc)                \* 3. label never there
+  ELSE IF labelNever THEN Out(p3, {PX("label-never", "Bug", "selector", lbl, -1)}, sc)   \* 3. label never there
   ELSE LET pp == IF lbl = "-" THEN p2 ELSE p3 IN
   IF prior THEN Out(pp, {}, sc)          \* `if len(problems) > 0 { continue }` looks at the problems of the whole rule
   ELSE IF Cardinality(trs) = 1 /\ Oldest(trs) <= Step /\ Newest(trs) < Lookback - Step      \* 4. was always there, now gone
-  THEN IF Newest(trs) >= Lookback - MinAge(sc) THEN Out(pp, {}, sc) ELSE Out(pp, {P("disappeared", Sev(sc))}, sc)
+  THEN IF Newest(trs) >= Lookback - MinAge(sc) THEN Out(pp, {}, sc) ELSE Out(pp, {PX("disappeared", Sev(sc), "selector", "-", AgoOf(trs))}, sc)
   ELSE LET valueProblem ==                                                            \* 5..7: the positive matcher alone
              IF lbl = "-" THEN {}
-             ELSE IF lr = {} THEN {P("value-never", Sev(sc))}                             \* 5. value never there
+             ELSE IF lr = {} THEN {PX("value-never", Sev(sc), "matcher", MatcherText(sc.shape), -1)}   \* 5. value never there
              ELSE IF Cardinality(lr) = 1 /\ Newest(lr) < Lookback - Step
                   THEN IF gapOutside /\ Newest(lr) < Lookback - MinAge(sc)
-                       THEN {P("value-disappeared", Sev(sc))}                            \* 6. value gone for > min-age
+                       THEN {PX("value-disappeared", Sev(sc), "matcher", MatcherText(sc.shape), AgoOf(lr))}   \* 6. value gone for > min-age
                        ELSE {}                                                           \*    (recently, or inside gaps of the metric)
-             ELSE IF Cardinality(lr) > 1 /\ lGaps # {} THEN {P("value-sometimes", "Warning")}   \* 7.
+             ELSE IF Cardinality(lr) > 1 /\ lGaps # {} THEN {PX("value-sometimes", "Warning", "matcher", MatcherText(sc.shape), -1)}   \* 7.
              ELSE {}
            last == IF lbl = "-" THEN pp ELSE p4
        IN
@@ -176,7 +188,7 @@ Target(sc, prior) ==
 
 \* the other selector of the mul_* wrappers: a metric that never existed and that nothing exempts
 ZFProbes == << I("count(ZF)"), R("count(UP)"), R("count(ZF)") >>
-ZFProblems == {P("never", "Bug")}
+ZFProblems == {PX("never", "Bug", "other", "-", -1)}
 RECURSIVE DedupFrom(_, _, _)
 DedupFrom(sq, k, acc) == IF k > Len(sq) THEN acc
                          ELSE DedupFrom(sq, k + 1, IF \E i \in 1..Len(acc) : acc[i] = sq[k] THEN acc ELSE Append(acc, sq[k]))
@@ -224,7 +236,8 @@ Init == /\ sc \in [shape : Shapes, ha : {"never"}, hb : {"never"}, up : {"always
 ChooseData ==  /\ pc = "data"
                /\ \E a \in (IF Stratum = "never" THEN {"never"} ELSE HistNames),
                      b \in (IF Stratum = "never" THEN {"never"} ELSE HistNames), u \in UpNames :
-                       sc' = [sc EXCEPT !.ha = a, !.hb = b, !.up = u]
+                       /\ sc' = [sc EXCEPT !.ha = a, !.hb = b, !.up = u]
+                       /\ Stratum = "now" => NowCell \in SelCells(sc')
                /\ pc' = "rules" /\ UNCHANGED out
 ChooseRules == /\ pc = "rules"
                /\ \E r \in RuleSets, e \in Exempts : sc' = [sc EXCEPT !.rules = r, !.exempt = e]
